@@ -28,6 +28,16 @@ Theorem C13_cross_flow_refuted :
 Proof. exact C13_cross_flow_refuted_proof. Qed.
 Print Assumptions C13_cross_flow_refuted.
 
+(* A second, independent window: popReadyTask polls the channel, then pops the overflow list under its
+   mutex; capacity+1 enqueues in between make the overflow task overtake the older channel tasks (no
+   queue is ever claimed in this witness, so it is not the idle-GC race). *)
+Theorem C13_overflow_overtake_refuted :
+  exists cap keys sched, 0 < cap /\
+    let s := run cap keys sched in
+    spec_safe (st_log s) = false /\ forallb (fun Q => negb (q_refs Q <? 0)%Z) (st_qs s) = true.
+Proof. exact C13_overflow_overtake_refuted_proof. Qed.
+Print Assumptions C13_overflow_overtake_refuted.
+
 Theorem C13_exactly_once_in_order_full_is_false : ~ C13_exactly_once_in_order_full.
 Proof. exact C13_full_is_false. Qed.
 Print Assumptions C13_exactly_once_in_order_full_is_false.
